@@ -33,8 +33,17 @@ def _recopy(v, region, seen=None):
 def sanitise(v, name):
     """apply a sanitiser to every data piece of a string value"""
     out = set()
+    # a replacement whose result cannot contain its own pattern again is idempotent: applied a second time in a row (a loop
+    # that re-scans its accumulator) it changes nothing and is recorded once
+    idem = False
+    if name.startswith("replace:") and "→" in name:
+        a_, _, b_ = name[len("replace:"):].partition("→")
+        idem = bool(a_) and a_ not in b_
     for p in v.pieces:
         if p.kind == "data":
+            if idem and p.escapes and p.escapes[-1] == name:
+                out.add(p)
+                continue
             out.add(p._replace(escapes=(p.escapes + (name,))[-4:]))
         else:
             out.add(p)
